@@ -112,6 +112,9 @@ seed("C20", "interval-inclusive", "suppression also exactly at the interval boun
      (LL, "now.Sub(limiter.previousTime) < limiter.interval", "now.Sub(limiter.previousTime) <= limiter.interval"))
 seed("C20", "or-instead-of-and", "suppress on same message OR within interval", ["C20.G1"],
      (LL, "< limiter.interval && s == limiter.previousEntry", "< limiter.interval || s == limiter.previousEntry"))
+seed("C20", "direct-log-in-frame-path", "a per-frame message printed with log.Printf instead of through the limiter", ["C20.G1"],
+     (MP, "\t\t\tmp.log.Printf(\"Recording not started: %v\", err)", "\t\t\tlog.Printf(\"Recording not started: %v\", err)"),
+     (MP, "import (\n", "import (\n\t\"log\"\n"))
 seed("C20", "suppressed-extends-window", "time updated when suppressing", ["C20.G3"],
      (LL, "s == limiter.previousEntry {\n\t\treturn", "s == limiter.previousEntry {\n\t\tlimiter.previousTime = now\n\t\treturn"))
 seed("C20", "interval-one-second", "recorder builds the limiter with one second", ["C20.G5"],
